@@ -235,7 +235,11 @@ pub fn run_c09(ctx: &Ctx) -> (Report, String) {
         rep
     });
     total.merge(Report::merge_all(reps));
+    if !ctx.miri() {
+        total.merge(boundary_images(ctx, "C09"));
+    }
     if ctx.is_main() && ctx.scale_pct == 100 {
+        total.require("boundary_images", 100);
         total.require("kernel_patterns_horizontal", 3_000_000);
         total.require("kernel_patterns_vertical", 3_000_000);
         total.require("gradient=negative", 100_000);
@@ -246,6 +250,35 @@ pub fn run_c09(ctx: &Ctx) -> (Report, String) {
         total.exhaustive = Some(false);
     }
     (total, rule_c09())
+}
+
+/// Boundary-value ladder for the geometry: one dimension around powers of two up to 2^17 (and a
+/// few large squares), the other small - thresholds a dense small box never reaches.
+fn boundary_images(ctx: &Ctx, prop: &'static str) -> Report {
+    let mut dims: Vec<(usize, usize)> = vec![];
+    for d in [255usize, 256, 257, 1023, 1025, 4095, 4097, 8191, 8193, 16383, 16385, 32767, 32769, 65534, 65535, 65536, 65537, 131071, 131073] {
+        for s in [1usize, 2, 9, 10, 11, 17] {
+            dims.push((d, s));
+            dims.push((s, d));
+        }
+    }
+    dims.extend([(1024, 1024), (1031, 1027), (2050, 514)]);
+    let reps = par_shards(dims.len(), ctx.threads, |k| {
+        let (w, h) = dims[k];
+        let mut rep = Report::new();
+        let mut rng = Rng::new(ctx.seed ^ 0xC09AD, k as u64);
+        let mut d = vec![0u8; w * h];
+        rng.fill(&mut d);
+        for s in [1u8 + (k % 12) as u8, 12] {
+            rep.evaluations += 1;
+            if compare(&d, w, s, &mut rep, &format!("boundary {}x{} strength {}", w, h, s), prop) {
+                rep.count("boundary_images");
+                rep.distinct.insert(fnv64(&[(w >> 16) as u8, (w >> 8) as u8, w as u8, (h >> 16) as u8, (h >> 8) as u8, h as u8, s]));
+            }
+        }
+        rep
+    });
+    Report::merge_all(reps)
 }
 
 pub fn replay_image(j: &J, rep: &mut Report, prop: &str) {
@@ -301,6 +334,9 @@ pub fn run_c16(ctx: &Ctx) -> (Report, String) {
         rep
     });
     let mut rep = Report::merge_all(reps);
+    if !ctx.miri() {
+        rep.merge(boundary_images(ctx, "C16"));
+    }
     // Table J.2
     for q in 1..=31usize {
         rep.evaluations += 1;
@@ -317,6 +353,7 @@ pub fn run_c16(ctx: &Ctx) -> (Report, String) {
         rep.require("calls_ok", (maxd * (maxd + 1) * 12) as u64);
         rep.require("table_entries_ok", 31);
         rep.require("class:rows<2:cols<10", 100);
+        rep.require("boundary_images", 100);
     }
     (rep, rule_c16())
 }
